@@ -399,6 +399,16 @@ def rule_c05(an, res):
                     okf, _ = lift.feasible(seg)
                     if not okf:
                         continue
+                    # an entry keeps the TTL in force when it was written: the configured TTL decides nothing but new deadlines
+                    if roles.ttl:
+                        for c in seg.conds:
+                            uses = [t for t in lift.subterms(c[4]) if is_ld(t) and t[2] == THIS(roles.ttl)]
+                            res.ob('R-TTL-USE', ok=not uses)
+                            if uses:
+                                V(res, prop, 'R-TTL-USE', cm, where_of(m, seg), 'decision depends on the currently configured ttl', c[3],
+                                  'path [%s]: %s is tested; entries written earlier carry the ttl that was in force at their write, the current '
+                                  'setting must only enter the deadline of new writes' % (' '.join(seg.valuation()), show(c[4])))
+                                break
                     for e in seg.effects:
                         if e.kind == 'CFG' and e.field == roles.ttl:
                             res.ob('R-CFG-ONLY', ok=False)
